@@ -265,11 +265,45 @@ Definition pdouble : parser f64 :=
   fun s => LET t, r <- double_text s IN
            match parse_f64 t with Some f => POk f r | None => PFail end.
 
+(** sort_mode: the alternatives in source order (Generated.sort_mode_tags) *)
+Fixpoint first_tag (tags : list String.string) (s : str) : option str :=
+  match tags with
+  | [] => None
+  | t :: r => match strip_prefix (lit t) s with Some rest => Some rest | None => first_tag r s end
+  end.
+
+Fixpoint sort_mode_from (table : list (String.string * list String.string)) (s : str) : option (bool * str) :=
+  match table with
+  | [] => None
+  | (ctor, tags) :: r =>
+      match first_tag tags s with
+      | Some rest => Some (String.eqb ctor "Descending", rest)
+      | None => sort_mode_from r s
+      end
+  end.
+
+(** one of several tags, tried in the given order *)
+Definition ptags (tags : list String.string) : parser unit :=
+  fun s => match first_tag tags s with Some r => POk tt r | None => PFail end.
+
 (** *** expressions *)
-Definition comp_op : parser cmpop :=
-  pmap (fun _ => CEq) (ptag "==") <|> pmap (fun _ => CNeq) (ptag "!=") <|> pmap (fun _ => CNeq) (ptag "<>")
-  <|> pmap (fun _ => CGte) (ptag ">=") <|> pmap (fun _ => CLte) (ptag "<=")
-  <|> pmap (fun _ => CGt) (ptag ">") <|> pmap (fun _ => CLt) (ptag "<").
+(** comp_op: the alternatives in source order (Generated.comp_op_tags) *)
+Definition cmpop_of_name (n : String.string) : option cmpop :=
+  if String.eqb n "Eq" then Some CEq else if String.eqb n "Neq" then Some CNeq
+  else if String.eqb n "Gte" then Some CGte else if String.eqb n "Lte" then Some CLte
+  else if String.eqb n "Gt" then Some CGt else if String.eqb n "Lt" then Some CLt else None.
+
+Fixpoint comp_op_from (table : list (String.string * String.string)) (s : str) : pres cmpop :=
+  match table with
+  | [] => PFail
+  | (t, ctor) :: r =>
+      match strip_prefix (lit t) s with
+      | Some rest => match cmpop_of_name ctor with Some op => POk op rest | None => PFatal end
+      | None => comp_op_from r s
+      end
+  end.
+
+Definition comp_op : parser cmpop := comp_op_from Generated.comp_op_tags.
 
 Definition muldiv_op : parser arop := pmap (fun _ => AMul) (ptag "*") <|> pmap (fun _ => ADiv) (ptag "/").
 Definition addsub_op : parser arop := pmap (fun _ => AAdd) (ptag "+") <|> pmap (fun _ => ASub) (ptag "-").
@@ -312,200 +346,167 @@ Definition literal_value : parser expr :=
   <|> pmap (fun _ => EVal (VBool false)) (ptag "false")
   <|> pmap (fun _ => EVal VNone) (ptag "null").
 
-(** the mutually recursive expression levels, on one fuel *)
+(** the expression levels of lang.rs (arg_list, atomic, unary, term, arith_expr, cmp_expr,
+    logical_and, logical_or), each written over the parser [opt_e] for a nested expression
+    ([opt_expr]: whitespace, then logical_or); the knot is tied on one fuel in [p_expr] *)
+Section Levels.
+Variable opt_e : parser expr.
+
+(** the rest of a comma separated argument list, up to and including the closing paren *)
+Fixpoint args_more (k : nat) (s : str) (acc : list expr) : pres (list expr) :=
+  match k with
+  | O => PFatal
+  | S k' =>
+      let s' := skip_spaces s in
+      match eat 44 s' with
+      | Some r3 =>
+          match opt_e r3 with
+          | POk e' r4 => args_more k' r4 (e' :: acc)
+          | PFail => (* separated_list0 stops before the comma *)
+              match eat 41 s' with Some r => POk (rev acc) r | None => PFatal end
+          | PFatal => PFatal
+          end
+      | None => match eat 41 s' with Some r => POk (rev acc) r | None => PFatal end
+      end
+  end.
+
+(** open paren, optional comma separated expressions, closing paren required *)
+Definition p_args : parser (list expr) :=
+  fun s =>
+    match eat 40 s with
+    | None => PFail
+    | Some r0 =>
+        let r1 := skip_spaces r0 in
+        match opt_e r1 with
+        | PFatal => PFatal
+        | PFail => match eat 41 (skip_spaces r1) with Some r => POk [] r | None => PFatal end
+        | POk e r2 => args_more (length r2 + 1)%nat r2 [e]
+        end
+    end.
+
+Definition p_if : parser expr :=
+  fun s => match strip_prefix (lit "if") s with
+           | Some r => match p_args r with
+                       | POk [c; t; e] r' => POk (EIf c t e) r'
+                       | POk _ _ => PFatal
+                       | PFail => PFail
+                       | PFatal => PFatal
+                       end
+           | None => PFail
+           end.
+
+Definition p_fcall : parser expr :=
+  fun s => match ident s with
+           | POk name r => match p_args r with
+                           | POk args r' => POk (ECall name args) r'
+                           | PFail => PFail
+                           | PFatal => PFatal
+                           end
+           | PFail => PFail
+           | PFatal => PFatal
+           end.
+
+Definition p_paren : parser expr :=
+  fun s => match eat 40 s with
+           | Some r => match pexpect opt_e r with
+                       | POk e r' => match eat 41 r' with Some r'' => POk e r'' | None => PFatal end
+                       | PFail => PFatal
+                       | PFatal => PFatal
+                       end
+           | None => PFail
+           end.
+
+Definition p_atomic : parser expr :=
+  p_if <|> p_fcall <|> literal_value <|> column_ref <|> p_paren.
+
+Definition p_unary : parser expr :=
+  fun s => match eat 33 s with
+           | Some r => pmap ENot (pexpect p_atomic) r
+           | None => p_atomic s
+           end.
+
+(** a left-associative chain  operand (op operand)*  with optional whitespace around the operator *)
+Fixpoint chain_more {A} (op : parser A) (mk : A -> expr -> expr -> expr) (operand : parser expr)
+         (k : nat) (lhs : expr) (s : str) : pres expr :=
+  match k with
+  | O => POk lhs s
+  | S k' =>
+      match op (skip_spaces s) with
+      | POk o r1 =>
+          match operand (skip_spaces r1) with
+          | POk rhs r2 => chain_more op mk operand k' (mk o lhs rhs) r2
+          | PFail => PFatal            (* dangling binary operator *)
+          | PFatal => PFatal
+          end
+      | _ => POk lhs s
+      end
+  end.
+
+Definition p_term : parser expr :=
+  fun s => LET init, r <- p_unary s IN chain_more muldiv_op EArith p_unary (length r) init r.
+
+Definition p_arith : parser expr :=
+  fun s => LET init, r <- p_term s IN chain_more addsub_op EArith p_term (length r) init r.
+
+(** comparisons do not chain *)
+Definition p_cmp : parser expr :=
+  fun s =>
+    LET lhs, r <- p_arith (skip_spaces s) IN
+    match comp_op (skip_spaces r) with
+    | POk op r1 =>
+        match p_arith (skip_spaces r1) with
+        | POk rhs r2 => POk (ECmp op lhs rhs) r2
+        | PFail => PFatal
+        | PFatal => PFatal
+        end
+    | _ => POk lhs r
+    end.
+
+(** either: spaces, the word, spaces, operand; or: the symbol between optional spaces, operand *)
+Fixpoint logic_more (word sym : String.string) (lo : lgop) (operand : parser expr)
+         (k : nat) (lhs : expr) (s : str) : pres expr :=
+  match k with
+  | O => POk lhs s
+  | S k' =>
+      match (match ms1 s with
+             | POk _ r1 => match strip_prefix (lit word) r1 with
+                           | Some r2 => match ms1 r2 with
+                                        | POk _ r3 => match operand r3 with
+                                                      | POk e r4 => POk (Some e) r4
+                                                      | PFail => POk None r2
+                                                      | PFatal => PFatal
+                                                      end
+                                        | _ => POk None r2
+                                        end
+                           | None => PFail
+                           end
+             | _ => PFail
+             end) with
+      | POk (Some e) r => logic_more word sym lo operand k' (ELogic lo lhs e) r
+      | POk None _ => PFatal
+      | PFatal => PFatal
+      | PFail =>
+          match strip_prefix (lit sym) (skip_spaces s) with
+          | Some r2 => match operand (skip_spaces r2) with
+                       | POk e r3 => logic_more word sym lo operand k' (ELogic lo lhs e) r3
+                       | _ => PFatal
+                       end
+          | None => POk lhs s
+          end
+      end
+  end.
+
+Definition p_land : parser expr :=
+  fun s => LET init, r <- p_cmp s IN logic_more "and" "&&" LAnd p_cmp (length r) init r.
+
+Definition p_lor : parser expr :=
+  fun s => LET init, r <- p_land s IN logic_more "or" "||" LOr p_land (length r) init r.
+End Levels.
+
 Fixpoint p_expr (fuel : nat) : parser expr :=
   match fuel with
   | O => fun _ => PFatal
-  | S f =>
-      let opt_expr : parser expr := fun s => p_expr f (skip_spaces s) in
-      (* open paren, optional comma separated expressions, closing paren required *)
-      let arg_list : parser (list expr) :=
-        fun s =>
-          match eat 40 s with
-          | None => PFail
-          | Some r0 =>
-              let r1 := skip_spaces r0 in
-              let first := opt_expr r1 in
-              match first with
-              | PFatal => PFatal
-              | PFail => match eat 41 (skip_spaces r1) with Some r => POk [] r | None => PFatal end
-              | POk e r2 =>
-                  (fix more (k : nat) (s : str) (acc : list expr) : pres (list expr) :=
-                     match k with
-                     | O => PFatal
-                     | S k' =>
-                         let s' := skip_spaces s in
-                         match eat 44 s' with
-                         | Some r3 =>
-                             match opt_expr r3 with
-                             | POk e' r4 => more k' r4 (e' :: acc)
-                             | PFail => (* separated_list0 stops before the comma *)
-                                 match eat 41 s' with Some r => POk (rev acc) r | None => PFatal end
-                             | PFatal => PFatal
-                             end
-                         | None => match eat 41 s' with Some r => POk (rev acc) r | None => PFatal end
-                         end
-                     end) (length r2 + 1)%nat r2 [e]
-              end
-          end in
-      let atomic : parser expr :=
-        fun s =>
-          (* if_op *)
-          match (match strip_prefix (lit "if") s with
-                 | Some r => match arg_list r with
-                             | POk [c; t; e] r' => POk (EIf c t e) r'
-                             | POk _ _ => PFatal
-                             | PFail => PFail
-                             | PFatal => PFatal
-                             end
-                 | None => PFail
-                 end) with
-          | POk e r => POk e r
-          | PFatal => PFatal
-          | PFail =>
-              (* fcall *)
-              match (match ident s with
-                     | POk name r => match arg_list r with
-                                     | POk args r' => POk (ECall name args) r'
-                                     | PFail => PFail
-                                     | PFatal => PFatal
-                                     end
-                     | PFail => PFail
-                     | PFatal => PFatal
-                     end) with
-              | POk e r => POk e r
-              | PFatal => PFatal
-              | PFail =>
-                  (literal_value <|> column_ref <|>
-                   (fun s => match eat 40 s with
-                             | Some r => match pexpect opt_expr r with
-                                         | POk e r' => match eat 41 r' with Some r'' => POk e r'' | None => PFatal end
-                                         | PFail => PFatal
-                                         | PFatal => PFatal
-                                         end
-                             | None => PFail
-                             end)) s
-              end
-          end in
-      let unary : parser expr :=
-        fun s => match eat 33 s with
-                 | Some r => pmap ENot (pexpect atomic) r
-                 | None => atomic s
-                 end in
-      let term : parser expr :=
-        fun s =>
-          LET init, r <- unary s IN
-          (fix more (k : nat) (lhs : expr) (s : str) : pres expr :=
-             match k with
-             | O => POk lhs s
-             | S k' =>
-                 match muldiv_op (skip_spaces s) with
-                 | POk op r1 =>
-                     match unary (skip_spaces r1) with
-                     | POk rhs r2 => more k' (EArith op lhs rhs) r2
-                     | PFail => PFatal            (* dangling binary operator *)
-                     | PFatal => PFatal
-                     end
-                 | _ => POk lhs s
-                 end
-             end) (length r) init r in
-      let arith : parser expr :=
-        fun s =>
-          LET init, r <- term s IN
-          (fix more (k : nat) (lhs : expr) (s : str) : pres expr :=
-             match k with
-             | O => POk lhs s
-             | S k' =>
-                 match addsub_op (skip_spaces s) with
-                 | POk op r1 =>
-                     match term (skip_spaces r1) with
-                     | POk rhs r2 => more k' (EArith op lhs rhs) r2
-                     | PFail => PFatal
-                     | PFatal => PFatal
-                     end
-                 | _ => POk lhs s
-                 end
-             end) (length r) init r in
-      let cmp : parser expr :=
-        fun s =>
-          LET lhs, r <- arith (skip_spaces s) IN
-          match comp_op (skip_spaces r) with
-          | POk op r1 =>
-              match arith (skip_spaces r1) with
-              | POk rhs r2 => POk (ECmp op lhs rhs) r2
-              | PFail => PFatal
-              | PFatal => PFatal
-              end
-          | _ => POk lhs r
-          end in
-      let land : parser expr :=
-        fun s =>
-          LET init, r <- cmp s IN
-          (fix more (k : nat) (lhs : expr) (s : str) : pres expr :=
-             match k with
-             | O => POk lhs s
-             | S k' =>
-                 (* either: spaces, the word and, spaces, cmp; or: the symbol && between optional spaces, cmp *)
-                 match (match ms1 s with
-                        | POk _ r1 => match strip_prefix (lit "and") r1 with
-                                      | Some r2 => match ms1 r2 with
-                                                   | POk _ r3 => match cmp r3 with
-                                                                 | POk e r4 => POk (Some e) r4
-                                                                 | PFail => POk None r2
-                                                                 | PFatal => PFatal
-                                                                 end
-                                                   | _ => POk None r2
-                                                   end
-                                      | None => PFail
-                                      end
-                        | _ => PFail
-                        end) with
-                 | POk (Some e) r => more k' (ELogic LAnd lhs e) r
-                 | POk None _ => PFatal
-                 | PFatal => PFatal
-                 | PFail =>
-                     match strip_prefix (lit "&&") (skip_spaces s) with
-                     | Some r2 => match cmp (skip_spaces r2) with
-                                  | POk e r3 => more k' (ELogic LAnd lhs e) r3
-                                  | _ => PFatal
-                                  end
-                     | None => POk lhs s
-                     end
-                 end
-             end) (length r) init r in
-      fun s =>
-        LET init, r <- land s IN
-        (fix more (k : nat) (lhs : expr) (s : str) : pres expr :=
-           match k with
-           | O => POk lhs s
-           | S k' =>
-               match (match ms1 s with
-                      | POk _ r1 => match strip_prefix (lit "or") r1 with
-                                    | Some r2 => match ms1 r2 with
-                                                 | POk _ r3 => match land r3 with
-                                                               | POk e r4 => POk (Some e) r4
-                                                               | PFail => POk None r2
-                                                               | PFatal => PFatal
-                                                               end
-                                                 | _ => POk None r2
-                                                 end
-                                    | None => PFail
-                                    end
-                      | _ => PFail
-                      end) with
-               | POk (Some e) r => more k' (ELogic LOr lhs e) r
-               | POk None _ => PFatal
-               | PFatal => PFatal
-               | PFail =>
-                   match strip_prefix (lit "||") (skip_spaces s) with
-                   | Some r2 => match land (skip_spaces r2) with
-                                | POk e r3 => more k' (ELogic LOr lhs e) r3
-                                | _ => PFatal
-                                end
-                   | None => POk lhs s
-                   end
-               end
-           end) (length r) init r
+  | S f => p_lor (fun s => p_expr f (skip_spaces s))
   end.
 
 Definition expr_fuel (s : str) : nat := S (S (length s)).
@@ -723,9 +724,17 @@ Definition p_parse : parser lstage :=
         end
     end.
 
-Definition fields_mode : parser bool :=
-  pmap (fun _ => true) (ptag "+" <|> ptag "only" <|> ptag "include")
-  <|> pmap (fun _ => false) (ptag "-" <|> ptag "except" <|> ptag "drop").
+(** fields_mode: the alternatives in source order (Generated.fields_mode_tags) *)
+Fixpoint fields_mode_from (table : list (String.string * list String.string)) (s : str) : pres bool :=
+  match table with
+  | [] => PFail
+  | (ctor, tags) :: r =>
+      match first_tag tags s with
+      | Some rest => POk (String.eqb ctor "Only") rest
+      | None => fields_mode_from r s
+      end
+  end.
+Definition fields_mode : parser bool := fields_mode_from Generated.fields_mode_tags.
 
 Definition p_fields : parser lstage :=
   fun s => LET _u, r <- ptag "fields" s IN LET _v, r1 <- ms1 r IN
@@ -773,46 +782,30 @@ Definition inline_opers : parser lstage :=
 (** *** aggregates *)
 Inductive lagg := LAgg (f : aggfn) | LAggDistinctBad.
 
+Fixpoint lookup_name (table : list (String.string * String.string)) (ctor : String.string) : str :=
+  match table with
+  | [] => []
+  | (c, n) :: r => if String.eqb c ctor then lit n else lookup_name r ctor
+  end.
+
+(** AggregateFunction::default_name, the table re-read from the source *)
 Definition default_name_of (a : lagg) (pct_str : str) : str :=
+  let dn := lookup_name Generated.default_names in
   match a with
-  | LAgg (FCount _) => lit "_count" | LAgg (FSum _) => lit "_sum" | LAgg (FMin _) => lit "_min"
-  | LAgg (FAvg _) => lit "_average" | LAgg (FMax _) => lit "_max"
+  | LAgg (FCount _) => dn "Count" | LAgg (FSum _) => dn "Sum" | LAgg (FMin _) => dn "Min"
+  | LAgg (FAvg _) => dn "Average" | LAgg (FMax _) => dn "Max"
   | LAgg (FPct _ _) => lit Generated.pct_prefix ++ pct_str
-  | LAgg (FDistinct _) | LAggDistinctBad => lit "_countDistinct"
+  | LAgg (FDistinct _) | LAggDistinctBad => dn "CountDistinct"
   end.
 
 (** all arguments of count_distinct: an arg_list *)
-Definition p_arg_list : parser (list expr) :=
-  fun s => match eat 40 s with
-           | None => PFail
-           | Some r0 =>
-               let r1 := skip_spaces r0 in
-               match opt_expr r1 with
-               | PFatal => PFatal
-               | PFail => match eat 41 r1 with Some r => POk [] r | None => PFatal end
-               | POk e r2 =>
-                   (fix more (k : nat) (s : str) (acc : list expr) : pres (list expr) :=
-                      match k with
-                      | O => PFatal
-                      | S k' =>
-                          let s' := skip_spaces s in
-                          match eat 44 s' with
-                          | Some r3 => match opt_expr r3 with
-                                       | POk e' r4 => more k' r4 (e' :: acc)
-                                       | PFail => match eat 41 s' with Some r => POk (rev acc) r | None => PFatal end
-                                       | PFatal => PFatal
-                                       end
-                          | None => match eat 41 s' with Some r => POk (rev acc) r | None => PFatal end
-                          end
-                      end) (length r2 + 1)%nat r2 [e]
-               end
-           end.
+Definition p_arg_list : parser (list expr) := p_args opt_expr.
 
 (** the decimal text of a percentile as Rust prints the parsed f64 (an integer below 100) *)
 Definition pct_string (d : str) : str := N_to_str (digits_val d 0).
 
 Definition p_pct : parser (lagg * str) :=
-  fun s => LET _u, r <- (ptag "pct" <|> ptag "percentile" <|> ptag "p") s IN
+  fun s => LET _u, r <- ptags Generated.pct_tags s IN
            LET d, r1 <- pdigit1 r IN
            LET e, r2 <- req_single_arg r1 IN
            let v := Z.of_N (digits_val d 0) in
@@ -832,7 +825,7 @@ Definition p_aggfn : parser (lagg * str) :=
   <|> (fun s => LET _u, r <- ptag "max" s IN LET e, r1 <- req_single_arg r IN POk (LAgg (FMax e), []) r1)
   <|> p_pct
   <|> (fun s => LET _u, r <- ptag "sum" s IN LET e, r1 <- req_single_arg r IN POk (LAgg (FSum e), []) r1)
-  <|> (fun s => LET _u, r <- (ptag "avg" <|> ptag "average") s IN LET e, r1 <- req_single_arg r IN POk (LAgg (FAvg e), []) r1).
+  <|> (fun s => LET _u, r <- ptags Generated.avg_tags s IN LET e, r1 <- req_single_arg r IN POk (LAgg (FAvg e), []) r1).
 
 Definition p_agg_oper : parser (str * lagg) :=
   fun s => LET a, r <- p_aggfn (skip_spaces s) IN
@@ -851,23 +844,6 @@ Definition p_multi_agg : parser lop :=
            LET keys, r1 <- popt (fun s => LET _a, x <- ptag "by" s IN LET _b, y <- ms1 x IN sourced_expr_list y) r IN
            LET _e, r2 <- end_of_query r1 IN
            POk (LMultiAgg fns (match keys with Some k => k | None => [] end)) r2.
-
-(** sort_mode: the alternatives in source order (Generated.sort_mode_tags) *)
-Fixpoint first_tag (tags : list String.string) (s : str) : option str :=
-  match tags with
-  | [] => None
-  | t :: r => match strip_prefix (lit t) s with Some rest => Some rest | None => first_tag r s end
-  end.
-
-Fixpoint sort_mode_from (table : list (String.string * list String.string)) (s : str) : option (bool * str) :=
-  match table with
-  | [] => None
-  | (ctor, tags) :: r =>
-      match first_tag tags s with
-      | Some rest => Some (String.eqb ctor "Descending", rest)
-      | None => sort_mode_from r s
-      end
-  end.
 
 Definition p_sort : parser lop :=
   fun s => LET _u, r <- ptag "sort" s IN
